@@ -907,7 +907,10 @@ pub fn verif_formatter_direct(
         8 => FormattedChunk::SystemThreadId,
         9 => FormattedChunk::Highlight(Vec::new()),
         10 => FormattedChunk::Debug(Vec::new()),
-        _ => FormattedChunk::Release(Vec::new()),
+        11 => FormattedChunk::Release(Vec::new()),
+        12 => FormattedChunk::Mdc("k".to_owned(), "dflt".to_owned()),
+        13 => FormattedChunk::ThreadId,
+        _ => FormattedChunk::ProcessId,
     };
     let res = chunk.encode(w, record);
     std::mem::forget(chunk);
